@@ -107,6 +107,31 @@ theorem native_tail (n : Native) (r : FrameRead.Bytes)
      else pure (.native n)) r = .ok (.native n, r) := by
   simp [typeTuple, typeUDT, typeMap, typeList, typeSet, h1, h2, h3, h4, h5, pure_apply]
 
+/-! every type description takes at least 2 bytes, every UDT field at least 4: the element-count
+guards of readTypeInfo (`int(n)*2 > len(f.buf)`, `int(n)*4 > len(f.buf)`) pass on every encoding -/
+mutual
+theorem eType_len : ∀ t : TypeDesc, 2 ≤ (eType t).length
+  | .native _ => by simp [eType, eShort]
+  | .custom _ => by simp [eType, eShort]
+  | .list _ => by simp [eType, eShort]
+  | .set _ => by simp [eType, eShort]
+  | .map _ _ => by simp [eType, eShort]
+  | .udt _ _ _ => by simp [eType, eShort]
+  | .tuple _ => by simp [eType, eShort]
+theorem eTypes_len : ∀ es : TypeDescs, 2 * es.length ≤ (eTypes es).length
+  | .nil => by simp [TypeDescs.length, eTypes]
+  | .cons t r => by
+    have h1 := eType_len t
+    have h2 := eTypes_len r
+    simp [TypeDescs.length, eTypes]; omega
+theorem eFields_len : ∀ fs : FieldDescs, 4 * fs.length ≤ (eFields fs).length
+  | .nil => by simp [FieldDescs.length, eFields]
+  | .cons n t r => by
+    have h1 := eType_len t
+    have h2 := eFields_len r
+    simp [FieldDescs.length, eFields, eString, eShort]; omega
+end
+
 mutual
 theorem readType_ok : ∀ (t : TypeDesc) (fuel : Nat) (r : FrameRead.Bytes),
     wfType t = true → (eType t).length ≤ fuel →
@@ -172,7 +197,9 @@ theorem readType_ok : ∀ (t : TypeDesc) (fuel : Nat) (r : FrameRead.Bytes),
       simp only [List.append_assoc]
       simp [typeCustom, typeTuple, typeUDT, typeMap, typeList, typeSet, bind_ok (pure_apply _ _),
         bind_ok (readString_eString ks _ hw'.1.1.1), bind_ok (readString_eString name _ hw'.1.1.2),
-        bind_ok (readShort_eShort _ _ hlen), bind_ok ih, pure_apply, viewType]
+        bind_ok (readShort_eShort _ _ hlen),
+        bind_ok (needBytes_ok _ _ (show 4 * fs.length ≤ (eFields fs ++ r).length by
+          have := eFields_len fs; simp only [List.length_append]; omega)), bind_ok ih, pure_apply, viewType]
   | .tuple es, fuel, r, hw, hf => by
     cases fuel with
     | zero => simp [eType, eShort] at hf
@@ -184,7 +211,9 @@ theorem readType_ok : ∀ (t : TypeDesc) (fuel : Nat) (r : FrameRead.Bytes),
       rw [readTypeInfoF, eType, List.append_assoc, bind_ok (readShort_eShort 0x31 _ (by decide))]
       simp only [List.append_assoc]
       simp [typeCustom, typeTuple, typeUDT, typeMap, typeList, typeSet, bind_ok (pure_apply _ _),
-        bind_ok (readShort_eShort _ _ hlen), bind_ok ih, pure_apply, viewType]
+        bind_ok (readShort_eShort _ _ hlen),
+        bind_ok (needBytes_ok _ _ (show 2 * es.length ≤ (eTypes es ++ r).length by
+          have := eTypes_len es; simp only [List.length_append]; omega)), bind_ok ih, pure_apply, viewType]
 theorem readTypes_ok : ∀ (es : TypeDescs) (fuel : Nat) (r : FrameRead.Bytes),
     wfTypes es = true → (eTypes es).length ≤ fuel →
     readN (readTypeInfoF fuel) es.length (eTypes es ++ r) = .ok (viewTypes es, r)
